@@ -282,8 +282,8 @@ edge is an edge of the original automaton from distance `d` to distance `d + 1`;
 exactly one predecessor (a spanning tree), with all the parallel labels of that tree edge. -/
 theorem removeLongPaths_spec {s : FSA V L} (hs : s.WF) (root : Option V) (ties : Bool)
     {H : FSA V L} {dist : Dict V Nat} (h : s.removeLongPaths root ties = .ok (H, dist)) :
-    H.WF ∧ H.starts = [] ∧ (∀ v, v ∈ H.vertices ↔ v ∈ s.vertices) ∧
-    ∃ r, (root = some r ∨ (root = none ∧ s.starts.head? = some r)) ∧
+    H.WF ∧ (∀ v, v ∈ H.vertices ↔ v ∈ s.vertices) ∧
+    ∃ r, (root = some r ∨ (root = none ∧ s.starts.head? = some r)) ∧ H.starts = [r] ∧
       (∀ x n, dist.get? x = some n ↔ IsDist s r x n) ∧
       (∀ v l w, H.step v l = some w →
         s.step v l = some w ∧ ∃ d, IsDist s r v d ∧ IsDist s r w (d + 1)) ∧
@@ -309,7 +309,7 @@ theorem removeLongPaths_spec {s : FSA V L} (hs : s.WF) (root : Option V) (ties :
     · intro _ v l w h1; exact absurd h1 (hnoedge v l w)
   obtain ⟨marked', P', inv⟩ := rlpLoop_complete hs r ties _ _ _ _ _ _ H dist inv2 hloop
   obtain ⟨hdist, hties, hsound⟩ := rlp_final inv
-  refine ⟨inv.base.wf, inv.base.starts, inv.base.verts, r, hr, hdist, hsound, hties, ?_⟩
+  refine ⟨inv.base.wf, inv.base.verts, r, hr, inv.base.starts, hdist, hsound, hties, ?_⟩
   intro ht
   refine ⟨?_, inv.treeAll ht⟩
   intro w n hw hne
